@@ -8,16 +8,27 @@
     correspondence against generator-computed expectations, not by a theorem (see DESIGN.md). *)
 From LogQLV Require Import Base.Bytes Base.FloatX Model.Tables Model.Syntax Model.Parser Proofs.ParserP.
 
-(** every selector {l1 op1 "v1", ..., ln opn "vn"} with any number of matchers, all four operators, any
-    label and value bytes (regex values that compile) is accepted and yields exactly those matchers in
-    order, consuming exactly its own tokens *)
+(** every selector {l1 op1 "v1", ..., ln opn "vn"} with any number of matchers, all four operators, any value bytes (regex
+    values that compile) and any label names -- whether the lexer classifies a name as Ident or as a keyword (by, on, json,
+    drop, ...: [cls l] is that classification; a keyword is accepted when it is a valid label name, D29) -- is accepted and
+    yields exactly those matchers in order, consuming exactly its own tokens (the consumed label tokens are left re-typed
+    as Ident) *)
 Theorem parse_print_selector_partial :
-  forall (anch : bytes -> bool) (re_names : bytes -> option (list bytes)) (ms : list matcher) (p r : list token) (fuel : nat),
-  Forall (wf_matcher anch) ms -> (length ms < fuel)%nat ->
-  parse_selector fuel {| prev := p; rest := print_selector anch re_names ms ++ r |} =
-    POk ms {| prev := rev (print_selector anch re_names ms) ++ p; rest := r |}.
+  forall (anch : bytes -> bool) (re_names : bytes -> option (list bytes)) (cls : bytes -> ttype) (ms : list matcher) (p r : list token) (fuel : nat),
+  Forall (wf_lmatcher anch cls) ms -> (length ms < fuel)%nat ->
+  Forall (fun m => ttype_eqb (cls (m_label m)) TCloseBrace = false) ms ->
+  parse_selector fuel {| prev := p; rest := print_selector anch re_names cls ms ++ r |} =
+    POk ms {| prev := rev (print_selector anch re_names (fun _ => TIdent) ms) ++ p; rest := r |}.
 Proof. exact parse_selector_print. Qed.
 Print Assumptions parse_print_selector_partial.
+
+(** non-vacuity: {by="v", a=~"x"} with by lexed as the keyword token *)
+Example selector_keyword_label :
+  let anch := fun _ : bytes => true in
+  let cls := fun l : bytes => if bytes_eqb l ["b"%byte; "y"%byte] then TBy else TIdent in
+  let ms := [ {| m_label := ["b"%byte; "y"%byte]; m_op := OpEq; m_value := ["v"%byte] |}; {| m_label := ["a"%byte]; m_op := OpRe; m_value := ["x"%byte] |} ] in
+  match parse_selector 5 {| prev := []; rest := print_selector anch (fun _ => None) cls ms |} with POk r _ => r = ms | _ => False end.
+Proof. vm_compute. reflexivity. Qed.
 
 (** static rules *)
 Theorem rule_parameter_only_for_quantile : forall op p g u,
